@@ -74,8 +74,9 @@ func (j *VerifJournal) Fail(api string) bool {
 }
 
 type VerifInstance struct {
-	ID string
-	AZ string
+	ID    string
+	AZ    string
+	State string // lifecycle state reported by describe ("" = InService)
 }
 
 type VerifASG struct {
@@ -107,6 +108,8 @@ type VerifAutoScaling struct {
 	AttachFailFor int // how many consecutive AttachInstances calls fail from AttachFailAt on (0 = one)
 	// LaunchBase: launch time reported for instances (unix seconds)
 	LaunchBase int64
+	// KeepTerminating: a terminated instance stays listed by describe in state Terminating:Wait
+	KeepTerminating bool
 	// DescribeDown: every DescribeAutoScalingGroups call fails (throttled control plane); the
 	// resize / attach / terminate calls keep working
 	DescribeDown bool
@@ -129,7 +132,10 @@ func (s *VerifAutoScaling) DescribeAutoScalingGroups(in *autoscaling.DescribeAut
 		return nil, s.J.failure("DescribeAutoScalingGroups")
 	}
 	out := &autoscaling.DescribeAutoScalingGroupsOutput{}
-	for _, name := range in.AutoScalingGroupNames {
+	// AWS promises no order: groups come back in reverse order of the request, and the first two
+	// instances of a group swapped (so neither list is sorted by name / id)
+	for q := len(in.AutoScalingGroupNames) - 1; q >= 0; q-- {
+		name := in.AutoScalingGroupNames[q]
 		g := s.Group(awsapi.StringValue(name))
 		if g == nil {
 			continue
@@ -141,10 +147,15 @@ func (s *VerifAutoScaling) DescribeAutoScalingGroups(in *autoscaling.DescribeAut
 			DesiredCapacity:      awsapi.Int64(g.Desired),
 			VPCZoneIdentifier:    awsapi.String(g.VPC),
 		}
-		for k := range g.Instances {
+		for k0 := range g.Instances {
+			k := k0
+			if len(g.Instances) >= 2 && k0 < 2 {
+				k = 1 - k0
+			}
 			ag.Instances = append(ag.Instances, &autoscaling.Instance{
 				InstanceId:       awsapi.String(g.Instances[k].ID),
 				AvailabilityZone: awsapi.String(g.Instances[k].AZ),
+				LifecycleState:   awsapi.String(lifecycleOr(g.Instances[k].State, "InService")),
 			})
 		}
 		if g.Tagged {
@@ -209,6 +220,10 @@ func (s *VerifAutoScaling) TerminateInstanceInAutoScalingGroup(in *autoscaling.T
 	var rest []VerifInstance
 	for _, in := range g.Instances {
 		if in.ID != id {
+			rest = append(rest, in)
+		} else if s.KeepTerminating {
+			// (a termination lifecycle hook holds the instance: it stays listed, no longer in service)
+			in.State = "Terminating:Wait"
 			rest = append(rest, in)
 		}
 	}
@@ -372,6 +387,13 @@ func (e *VerifEC2) CreateFleet(in *ec2.CreateFleetInput) (*ec2.CreateFleetOutput
 	c.OK = true
 	e.J.Calls = append(e.J.Calls, c)
 	return out, nil
+}
+
+func lifecycleOr(s, def string) string {
+	if s == "" {
+		return def
+	}
+	return s
 }
 
 func maxInt(a, b int) int {
